@@ -47,7 +47,12 @@ type c20Case struct {
 	Ops []c20Op `json:"ops"`
 }
 
-func c20Addr(i int) vaa.Address { return vaa.Address{31: byte(1 + i%3), 0: byte(i % 3)} }
+func c20Addr(i int) vaa.Address {
+	if i < 0 {
+		return vaa.Address{} // the all-zero emitter (with chain 0: what an uninitialised filter would match)
+	}
+	return vaa.Address{31: byte(1 + i%3), 0: byte(i % 3)}
+}
 
 type fakeStream struct {
 	grpc.ServerStream
@@ -370,7 +375,7 @@ func genC20(t *rapid.T) c20Case {
 		case "disconnect":
 			return c20Op{K: "disconnect", Sub: rapid.IntRange(0, 5).Draw(t, "sub")}
 		}
-		return c20Op{K: "publish", Chain: rapid.SampledFrom([]uint16{1, 2, 255}).Draw(t, "chain"), Addr: rapid.IntRange(0, 2).Draw(t, "addr"), Bad: rapid.IntRange(0, 9).Draw(t, "bad") == 0}
+		return c20Op{K: "publish", Chain: rapid.SampledFrom([]uint16{1, 2, 255, 0}).Draw(t, "chain"), Addr: rapid.IntRange(-1, 2).Draw(t, "addr"), Bad: rapid.IntRange(0, 9).Draw(t, "bad") == 0}
 	})
 	c := c20Case{Ops: []c20Op{{K: "subscribe", Filters: rapid.SliceOfN(fg, 0, 2).Draw(t, "f0")}}}
 	c.Ops = append(c.Ops, rapid.SliceOfN(op, 2, 40).Draw(t, "ops")...)
